@@ -5,6 +5,7 @@ import (
 	"math/rand"
 	"runtime"
 	"strings"
+	"sync"
 	"sync/atomic"
 
 	"verifharness/fw"
@@ -42,6 +43,9 @@ func faultApis() map[string]interface{} {
 		"NilM":        nilM,
 		"FVS":         []int64{1, 2, 3},
 		"Zero0":       int64(0),
+		"UZero":       uint64(0),
+		"UNum":        uint8(9),
+		"FZero":       float64(0),
 		"Num":         int64(7),
 		"Val":         FaultVal{F: 1},
 		"Obj":         &FaultObj{F: 5, hidden: 9},
@@ -81,6 +85,12 @@ var faultKinds = []faultKind{
 	{name: "negative-index", num: "FVS[-1]"},
 	{name: "div-by-zero", num: "1 / Zero0"},
 	{name: "div-by-zero-literal", num: "7 / 0"},
+	{name: "div-by-zero-unsigned", num: "UNum / UZero"},
+	{name: "div-by-zero-float", num: "1.5 / FZero"},
+	{name: "div-by-zero-float-by-unsigned", num: "1.5 / UZero"},
+	{name: "div-by-zero-int-by-unsigned", num: "Num / UZero"},
+	{name: "div-by-zero-unsigned-by-int", num: "UNum / Zero0"},
+	{name: "div-by-zero-int-by-float", num: "Num / FZero"},
 	{name: "missing-name", num: "nosuchname"},
 	{name: "missing-key-variable", num: "FM[nokeyvar]"},
 	{name: "ill-typed-comparison", bol: "1 > \"a\""},
@@ -204,6 +214,11 @@ var constructs = []construct{
 	{"conc-three-level-call-argument", func(f faultKind, id int) (string, bool) {
 		e, _, ok := numOrBool(f)
 		return fmt.Sprintf("%s conc { Obj.In.Add(%s, 1) zr = 2 } en(%d)", f.pre, e, id), ok
+	}},
+	// several members of one block fail at once (more failures than the block has members of other categories)
+	{"conc-two-failing-three-level-calls", func(f faultKind, id int) (string, bool) {
+		e, _, ok := numOrBool(f)
+		return fmt.Sprintf("%s conc { zr = 2 Obj.In.Add(%s, 1) Obj.In.Add(1, %s) } en(%d)", f.pre, e, e, id), ok
 	}},
 	{"conc-member", func(f faultKind, id int) (string, bool) {
 		if f.stmt != "" {
@@ -486,6 +501,34 @@ func reportFault(k *fw.Case, label string, rs *RuleSet, c Call, out Outcome, fs 
 	}
 }
 
+// growT is ranged over while its methods make it longer.
+type growT struct {
+	mu    sync.Mutex
+	Items []int64
+	M     map[string]int64
+	n     int
+}
+
+func (g *growT) Reset() {
+	g.mu.Lock()
+	g.Items = []int64{1, 2, 3}
+	g.M = map[string]int64{"a": 1, "b": 2}
+	g.mu.Unlock()
+}
+
+func (g *growT) More() {
+	g.mu.Lock()
+	g.Items = append(g.Items, 9)
+	g.mu.Unlock()
+}
+
+func (g *growT) MoreKeys() {
+	g.mu.Lock()
+	g.n++
+	g.M[fmt.Sprintf("k%d", g.n)] = 1
+	g.mu.Unlock()
+}
+
 // ConcStress (C09, random part): a compilable rule whose conc block reads and writes many
 // locals at once, executed a few hundred times in several models. Nothing in it faults, so the
 // call must return nil - and, above all, it must return: a crash of the process (e.g. the Go
@@ -507,10 +550,16 @@ func ConcStress(k *fw.Case) {
 		}
 	}
 	b.WriteString("  }\n  return v0\nend\nrule \"other\" salience 1 begin conc { a1 = 1 a2 = a1x() } return a1 end\n")
+	// loops over containers that GROW while they are ranged over (through injected methods that terminate):
+	// forRange visits what was there when it started - in any case the call has to come back
+	b.WriteString("rule \"grower\" salience 0 begin\n  Grow.Reset()\n  gcnt = 0\n  forRange gi := Grow.Items {\n    Grow.More()\n    gcnt += 1\n  }\n  forRange gk := Grow.M {\n    Grow.MoreKeys()\n  }\n  forRange gj := GrowS {\n    gcnt += 1\n  }\n  return gcnt\nend\n")
 	var calls int64
+	grow := &growT{Items: []int64{1, 2, 3}, M: map[string]int64{"a": 1, "b": 2}}
 	apis := map[string]interface{}{
-		"seen": func(a, c int64) int64 { atomic.AddInt64(&calls, 1); return a + c },
-		"a1x":  func() int64 { return 2 },
+		"Grow":  grow,
+		"GrowS": []int64{4, 5},
+		"seen":  func(a, c int64) int64 { atomic.AddInt64(&calls, 1); return a + c },
+		"a1x":   func() int64 { return 2 },
 	}
 	obs := NewObs()
 	eng, err := NewEngineTarget(obs, b.String())
